@@ -619,6 +619,9 @@ def random_trace(rng, nsteps, p_restart=0.03, p_cut=0.06, p_timeout=0.04, p_look
     return w, tr.groups
 
 
+WITNESS_DISPLACED = None
+
+
 def scripted_traces():
     """fixed schedules (independent of VERIF_SEED), one per family of behaviour the model must follow:
     instant retry from an errback on the time-out and on the negotiation-failure path; one-sided cuts after
@@ -674,6 +677,23 @@ def scripted_traces():
         tr.drain()
         tr.apply(("advance", 1000))
         out.append(tr)
+    # the reachable run of C14_established_displaced_after_master_restart (known finding), step for step: M restarts, S
+    # (remembering M's past life) dials two hints, the first is established at both ends, the second offer displaces it
+    tr = Tracer()
+    tr.apply(("lookup", "S", 1))
+    tr.drain()
+    tr.apply(("restart", "M"))
+    tr.drain()
+    tr.apply(("lookup", "S", 2))
+    for st in [("deliver", 1, 0), ("deliver", 1, 1), ("deliver", 1, 1)]:
+        tr.apply(st)
+    tr.witness_before = (tr.w.live_broker_link("M"), tr.w.live_broker_link("S"))
+    tr.apply(("deliver", 2, 0))
+    tr.witness_after = tr.w.live_broker_link("M")
+    tr.drain()
+    out.append(tr)
+    global WITNESS_DISPLACED
+    WITNESS_DISPLACED = (tr.witness_before, tr.witness_after)
     for first in NAMES:
         for noticer in NAMES:
             for k in (1, 2):
@@ -1206,3 +1226,74 @@ def run_all(ctx):
                 run_case(ctx, "blackhole", 0, dict(who=who, hints=hints, second=second))
     ctx.sample(dict(kind="crossfire", params=dict(hints=dict(M=2, S=3), bytes=True)))
     ctx.sample(dict(kind="redundant", params=dict(who="S", history="peer-restarted", hints=2)))
+
+
+# ---------------------------------------------------------------------------------------------
+# the two layered models (lib/ConvergeLayers.v) on the real code
+
+class _Sink:
+    def __init__(self):
+        self.data = b""
+
+    def write(self, d):
+        self.data += bytes(d)
+
+
+class _FakeConnector:
+    def __init__(self, tub, target):
+        self.tub = tub
+        self.target = target
+
+
+def offers_case(events, records):
+    """the outbound Negotiations of ONE real Tub: events = [("new", tgt) | ("send", n)], records = {tgt: (ir, seq)} =
+    Tub.slave_table entries (targets without one have never been talked to).  Real Negotiation.__init__ / initClient /
+    sendHello; returns [(n, (ir, seq))] = the last-connection every hello carried, in the order sent"""
+    from foolscap.referenceable import TubRef
+    from foolscap.info import ConnectionInfo
+    E.reset_clock()
+    net = Net()
+    t = make_tub(net, "A", E.pem(0))
+    tid = lambda k: "tub%02dabcdefghijklmnopqrstuvwxy" % k
+    for k, (ir, seq) in records.items():
+        t.slave_table[tid(k)] = (ir, seq)
+    negs, out = [], []
+    try:
+        for ev in events:
+            if ev[0] == "new":
+                n = neg.Negotiation()
+                n.initClient(_FakeConnector(t, TubRef(tid(ev[1]), ["fake:x:1"])), "x", ConnectionInfo())
+                n.transport = _Sink()
+                negs.append(n)
+            elif ev[1] < len(negs):
+                n = negs[ev[1]]
+                n.transport = _Sink()
+                n.sendHello()
+                m = re.search(rb"last-connection: (\S+) (\S+)\r\n", n.transport.data)
+                out.append((ev[1], (m.group(1).decode(), int(m.group(2))) if m else None))
+    finally:
+        try:
+            t.stopService()
+        except Exception:
+            pass
+        E.turn()
+    return out
+
+
+def prestart_relay_case(who, k, late):
+    """k getReference calls queued on `who` before startService (same peer), the start, `late` more calls, everything
+    delivered, no faults: how often did each caller's Deferred fire?  (the relays of Tub.startService on the real Tub)"""
+    rng = _random.Random(5)
+    w = World(unstarted=[who])
+    try:
+        for i in range(k):
+            w.lookup(who, 1 + i % 2)
+        w.start(who)
+        for i in range(late):
+            w.lookup(who, 1)
+        settle(w, rng)
+        tick(1)
+        settle(w, rng)
+        return [len(r["fired"]) for r in w.results if r["who"] == who], [r["fired"] for r in w.results if r["who"] == who]
+    finally:
+        w.stop()
